@@ -221,7 +221,8 @@ def run_check(args):
     # prover; if the native executable contract finds a failing input on it, that input is the verdict
     for fname, msg in unsupported_funcs.items():
         if any(n_.split("[")[0] == fname for n_, _fl in native_fail):
-            crashes.remove(msg)
+            # (a function with several contract variants reports one such message per variant: drop them all)
+            crashes[:] = [c_ for c_ in crashes if not c_.startswith("%s: unsupported" % fname)]
             print("NOTE: %s (prover could not process the function; deciding by the native executable contract)" % msg)
     failing_functions = set("%s:%s" % (r["rel"], r["qual"]) for r, _ in failed + unknown)
     for name, fl in native_fail:
